@@ -40,7 +40,8 @@ def hexDigits (n : Nat) : Nat → List Char → List Char
   | k+1, acc => hexDigits (n / 16) k (hexDigit (n % 16) :: acc)
 
 def bitsHex (x : Float) : String :=
-  let x := if x.isNaN then Float.ofBits 0x7ff8000000000001 else if x == 0.0 then 0.0 else x
+  if x.isNaN then "7ff8000000000001" else
+  let x := if x == 0.0 then 0.0 else x
   String.ofList (hexDigits x.toBits.toNat 16 [])
 
 def parseHexNat (s : List Char) : Option Nat :=
